@@ -240,7 +240,7 @@ pub fn spec(id: &str, tier: Tier) -> Option<Spec> {
         },
         "C12" => Spec {
             id: "C12",
-            rule: "call histories over a pool of operands (A, B, C of a generated case, the empty operand, a separately allocated copy of A, A's first part): 20-60 calls (operation, two pool indices, placement in {this thread, fresh thread, this thread after the same call in f32}) derived from the case's auxiliary bits; after every call all operands are compared bit for bit with a snapshot and the result with the memoised first result for equal operands; for a fifth of the histories 8 threads then run all calls concurrently in different orders and every result is compared with the reference; the first 48 sweep-path cases of the process are recomputed at the very end of the run and must be bit-identical to what they returned at the start. Non-trivial: some call took the sweep path and returned at least one ring. Thread schedules are sampled, not controlled.",
+            rule: "call histories over a pool of operands (A, B, C of a generated case, the empty operand, a separately allocated copy of A, A's first part, and three operands that are not valid polygon sets: A's and B's parts together, A's parts twice, B twice plus A, for which a panic counts as a result that must repeat): 20-60 calls (operation, two pool indices, placement in {this thread, fresh thread, this thread after the same call in f32}) derived from the case's auxiliary bits; after every call all operands are compared bit for bit with a snapshot and the result with the memoised first result for equal operands; for a fifth of the histories 8 threads then run all calls concurrently in different orders and every result is compared with the reference; the first 48 sweep-path cases of the process are recomputed at the very end of the run and must be bit-identical to what they returned at the start. Non-trivial: some call took the sweep path and returned at least one ring. Thread schedules are sampled, not controlled.",
             design_ref: "§5 C12",
             families: {
                 let q = |a: u64, b: u64| tier.pick(a, b);
